@@ -21,10 +21,11 @@ Init == l = 1
 (* The recorder also emits a line of kind "nondeterministic" (a repeat of the same command gave another observation),          *)
 (* "model-disagrees" (the library's run is not the run Interp.tla prescribes for the program) or "colour-changes-text" (with      *)
 (* colours forced on, as on a terminal, the text between the colour sequences is not the plain text) when it sees such a thing:   *)
-(* no run of Cli.tla produces these kinds, so the line is rejected.                                                               *)
+(* no run of Cli.tla produces these kinds, so the line is rejected.  So is "library-panicked".                                    *)
 Accepts(r) ==
   LET f == Final(r.p) IN
   IF r.p.usage = "bad" \/ r.p.file = "missing" THEN r.proc.stdout = "" /\ r.proc.code # 0
+  ELSE IF r.p.lib.k = "library-panicked" THEN FALSE      \* no result to compare the tool with: the library itself panicked (running, or rendering its error)
   ELSE IF r.p.lib.k = "prompt" THEN r.proc.prompt_first
   ELSE IF r.p.lib.k = "stdout_closed" THEN r.proc.code = 0 /\ Len(r.proc.stderr) >= 15 /\ SubSeq(r.proc.stderr, 1, 15) = "Runtime error: "
   ELSE /\ r.proc.stdout = f.stdout
